@@ -69,6 +69,19 @@ class Runner:
                     if o.finished.get(r.run_id) is None:
                         o.finished[r.run_id] = HALTED
             o.n_notifs = len(inst.drec.notifs)
+            # completions / halts the instance was TOLD about by a peer count as seen, under the peer's id as well
+            # (for a singleton pattern the notification carries the local run's id instead)
+            for (op, _out) in inst.trace[getattr(o, 'n_trace', 0):]:
+                if op.startswith('rem '):
+                    cur_l = None
+                    for x in op.split()[1:]:
+                        if x in ('C', 'H', 'U'):
+                            cur_l = x
+                        elif cur_l == 'C':
+                            o.finished[x.split('|')[0]] = COMPLETED
+                        elif cur_l == 'H':
+                            o.finished.setdefault(x.split('|')[0], HALTED)
+            o.n_trace = len(inst.trace)
             live_ids = {r.run_id for r in inst.decider.all_runs()}
             back = live_ids & set(o.finished)
             if back and self.sc.get('cache', 1000) >= 1000:
